@@ -94,7 +94,8 @@ UsedUris(sheet) == UNION {NsUris(sheet, p) : p \in UsedPrefixes(sheet)}
 \* ---- comments inside a selector or inside the prelude of an unknown at-rule (vocabulary of the generator): dropping the comment
 \* ---- leaves the white space around it, so the tokens it separated stay separate
 StripSel == [s \in {"a /*c*/b", "a/*c*/ b"} |-> "a b"]
-StripUnknown == [t \in {"@x y /*c*/ z;"} |-> "@x y z;"]
+StripUnknown == [t \in {"@x y /*c*/ z;", "@variables { /*v*/ c: red; /*w*/ w: 1px }"} |->
+                    IF t = "@x y /*c*/ z;" THEN "@x y z;" ELSE "@variables { c: red; w: 1px }"]
 NoCommentSel(s) == IF s \in DOMAIN StripSel THEN StripSel[s] ELSE s
 NoCommentText(t) == IF t \in DOMAIN StripUnknown THEN StripUnknown[t] ELSE t
 
@@ -115,7 +116,7 @@ EffRule(Dv, P, S, r) ==
     LET V == VarDecls(S)
         r2 == CASE r.k = "style"    -> [r EXCEPT !.body = EffBody(P, V, "style", @),
                                                  !.sels = IF P.keepComments THEN @ ELSE [i \in 1..Len(@) |-> NoCommentSel(@[i])]]
-                [] r.k = "unknown"  -> [r EXCEPT !.text = IF P.keepComments THEN @ ELSE NoCommentText(@)]
+                [] r.k \in {"unknown", "variables"} -> [r EXCEPT !.text = IF P.keepComments THEN @ ELSE NoCommentText(@)]
                 [] r.k = "fontface" -> [r EXCEPT !.body = EffBody(P, V, "fontface", @)]
                 [] r.k = "page"     -> [r EXCEPT !.body = EffBody(P, V, "page", @), !.margins = EffMargins(Dv, P, V, @)]
                 [] r.k = "media"    -> [r EXCEPT !.rules = EffRules(Dv, P, S, @)]
